@@ -53,6 +53,8 @@ structure Case where
   resetCycles : Nat := 0
   memreset : Bool := false
   asyncReset : Bool := false
+  initMem : Bool := true      -- ClockConfig::initializeMemory of the (write) clock
+  initRegs : Bool := true
   rmwEn : Bool := false
   noReset : Bool := false
   chains : Array (List W) := #[]   -- mode 9: contents of the read latency registers per read port (first register first)
@@ -185,7 +187,7 @@ partial def loop (h : IO.FS.Stream) (c : Case) (s : Stats) : IO Stats := do
     let c : Case := { id := id, depth := (kvOf rest "depth").toNat!, width := (kvOf rest "width").toNat!, aw := (kvOf rest "aw").toNat!,
                       lat := (kvOf rest "L").toNat!, type := kvOf rest "type", init := kvOf rest "init", dev := kvOf rest "dev",
                       mode := (kvOf rest "mode").toNat!, idle := (kvOf rest "idle").toNat!, resetCycles := (kvOf rest "resetcycles").toNat!, memreset := kvOf rest "memreset" == "1",
-                      asyncReset := kvOf rest "async" == "1", wrInReset := kvOf rest "wrinreset" == "1", noReset := kvOf rest "noreset" == "1", rmwEn := kvOf rest "rmwen" == "1", rcPred := (kvOf rest "rcpred").toNat! }
+                      asyncReset := kvOf rest "async" == "1", wrInReset := kvOf rest "wrinreset" == "1", noReset := kvOf rest "noreset" == "1", initMem := kvOf rest "initmem" != "0", initRegs := kvOf rest "initregs" != "0", rmwEn := kvOf rest "rmwen" == "1", rcPred := (kvOf rest "rcpred").toNat! }
     let s := { s with cases := s.cases + 1, hist := bump (bump (bump (bump s.hist s!"type:{c.type}") s!"L:{c.lat}") s!"init:{c.init}") s!"dev:{c.dev}" }
     let s := { s with hist := bump (bump s.hist (if c.depth == 2 ^ c.aw then "depth:pow2" else "depth:nonpow2")) s!"mode:{c.mode}" }
     let s := if c.mode == 8 then { s with hist := bump (bump (bump s.hist (if c.asyncReset then "reset:async" else "reset:sync")) s!"reset-extra:{kvOf rest "extra"}")
@@ -216,7 +218,16 @@ partial def loop (h : IO.FS.Stream) (c : Case) (s : Stats) : IO Stats := do
         (c.ports.toList.filter (!·.isWrite)).foldl (fun s p =>
           { s with hist := bump s.hist s!"readreg:{if p.rst.isEmpty then "noreset-value" else "reset-value"}+{if !p.rdEn then "no-enable" else if p.stEn.all (· == p.stEn.headD "-") then "uniform-enable" else "per-stage-enables"}+{if c.ports.toList.any (·.isWrite) then "ram" else "rom"}" }) s
       else s
-    loop h { c with mem := ws, spec := ⟨ws⟩, specPost := ⟨ws⟩, chains := chains.toArray } s
+    -- `ws` are the declared contents; what the memory holds at power-on is the model's / the specification's business
+    let isRom := !(c.ports.toList.any (·.isWrite))
+    let ops := wordOps c.width
+    let m0 := powerOn ops ws isRom c.initMem
+    let a0 := ArrMem.init ops.undef ws (isRom || c.initMem)
+    let s := if c.mode == 11 then
+        { s with hist := bump (bump s.hist s!"poweron:initRegs={c.initRegs},initMem={c.initMem},{if isRom then "rom" else "ram"}")
+                              s!"poweron:{if c.noReset then "noreset" else if c.asyncReset then "async" else "sync"},memreset={c.memreset}" }
+      else s
+    loop h { c with mem := m0, spec := a0, specPost := a0, chains := chains.toArray } s
   | "pre" :: r :: reason =>
     let c := { c with preOk := r == "ok", postOk := r == "ok" }
     let why := " ".intercalate reason
